@@ -59,7 +59,7 @@ def mentions(t, names, depth=0):
             scoped = scoped or 'templ' == 0
             best = max(best, depth)
     if 'This' in names and 'This' in ns:
-        best = max(best, depth + 1 if depth >= 1 else 0)     # This::X is only handled at the first template-argument level
+        best = max(best, depth + 1 if depth >= 2 else 0)     # This::X is handled at the top level and one template level down
     for a in targs:
         b, s = mentions(a, names, depth + 1)
         best = max(best, b)
@@ -148,6 +148,8 @@ def known_predicates(module):
                 hits.add('invalid-typedef-arity')
             elif target[0] == 'func':
                 hits.add('typedef-of-function')
+            elif not (path[:len(tns)] == tuple(tns)):
+                hits.add('C03-typedef-outside-its-template-namespace')
         if k == 'var' and d[3] is not None and path:
             hits.add('C09-namespaced-variable-with-value')
         if k == 'ns' or not path:
@@ -233,6 +235,15 @@ def scope_modules(n, seed):
     """n sanitized + n raw random modules and a slice of the structured scope, as (abstract or None, text, excluded-by)"""
     from gen.iface import Gen, sanitize
     out = []
+    import gtwrap.interface_parser as ip
+    from gen.iface import abs_module
+    from gen.scope import PY_SCENARIOS
+    for t in PY_SCENARIOS:
+        try:
+            m = abs_module(ip.Module.parseString(t))
+        except Exception:
+            continue
+        out.append((m, t, known_predicates(m) - {'enum-in-class', 'C02-scoped-parameter'}))
     for i in range(n):
         m = Gen(seed * 7919 + i).module()
         c = sanitize(m)
